@@ -44,6 +44,12 @@ impl Shard {
 		W: Serialize + Clone + Send + Sync + std::fmt::Debug + 'static,
 		F: Fn(Arc<W>, &Path) + Send + Sync + Clone + 'static,
 	{
+		// debugging aid shared with the harness binary: PDBV_ONLY_SUB=<name> runs only that sub-run
+		if let Ok(only) = std::env::var("PDBV_ONLY_SUB") {
+			if only != sub {
+				return true
+			}
+		}
 		let mut runner = TestRunner::new(PConfig { rng_algorithm: RngAlgorithm::ChaCha, rng_seed: RngSeed::Fixed(self.seed_for(fingerprint(&sub.to_string()) & 0xffff)), failure_persistence: None, ..PConfig::default() });
 		for i in 0..n {
 			let wl = match strat.new_tree(&mut runner) {
